@@ -279,6 +279,7 @@ class Interp:
         self.frame_stack = []
         self.cover_file = None
         self.loop_index_stack = []     # index terms of the enclosing symbolic loops (arbitrary iteration)
+        self.loop_frame_stack = []     # arbitrary iterations being executed: declared object fields, new objects
         self.collect = None            # (code object, YSeq): the generator function under verification
 
     def current_function_name(self):
@@ -447,7 +448,10 @@ class Interp:
             return self.call(f.func, list(f.args) + list(args), kw)
         if isinstance(f, Opaque):
             return self.reg.call_opaque(self, f, '__call__', list(args), kwargs)
-        from .api import OpaqueMethod, call_opaque_method
+        from .api import OpaqueMethod, call_opaque_method, Measure
+        if isinstance(f, Measure):
+            from . import mlist
+            return mlist.apply_measure(self, f, list(args))
         if isinstance(f, OpaqueMethod):
             return call_opaque_method(self, f.o, f.name, f.m, list(args), kwargs)
         if isinstance(f, _CtxFactory):
@@ -585,6 +589,7 @@ class Interp:
             else:
                 from .api import _bare_instance
                 obj = _bare_instance(cls)
+        self.note_new_object(obj)
         if isinstance(obj, cls):
             init = _static_lookup(cls, '__init__')
             if init is not None and isinstance(init[0], types.FunctionType) and _is_repo_function(init[0]):
@@ -702,9 +707,20 @@ class Interp:
         except Exception as e:
             raise PyRaise(e)
 
+    def note_new_object(self, obj):
+        for e in self.loop_frame_stack:
+            e['born'].add(id(obj))
+
     def setattr(self, obj, name, value):
         if isinstance(obj, (SOpt, SChoice)):
             obj = self.resolve(obj)
+        for e in self.loop_frame_stack:
+            # the arbitrary iteration of a loop with invariant: a store to a field of an object that existed
+            # before the iteration must be declared in the loop's `modifies` (it was havocked at the loop head)
+            if id(obj) not in e['born'] and (id(obj), name) not in e['declared'] \
+                    and (id(obj), '*') not in e['declared'] and not isinstance(obj, type):
+                raise Unsupported('%s: the loop body stores to field %r of a %s that is not declared in modifies '
+                                  '(declare it as \'<local>.<attr>...\')' % (e['loop'], name, type(obj).__name__))
         if isinstance(obj, Opaque):
             return self.reg.opaque_setattr(self, obj, name, value)
         if isinstance(obj, Sym):
@@ -1075,7 +1091,9 @@ class Interp:
             container = self.resolve(container)
         if isinstance(container, (SStr, str)) and isinstance(x, (SStr, str)) and \
                 (isinstance(container, SStr) or isinstance(x, SStr)):
-            from . import strings
+            from . import strings, charclass
+            if isinstance(x, str) and isinstance(container, SStr):
+                charclass.contains_link_pattern(self, container.t, z3.StringVal(x))
             return wrap(z3.Contains(strings.norm(self, to_z3(container)), strings.norm(self, to_z3(x))))
         if isinstance(container, SList):
             from . import models
